@@ -100,10 +100,11 @@ func c08projectJqBinary(expr string, obj map[string]any) (string, error) {
 }
 
 type c08step struct {
-	Op   string // put touch delete close-watches expire-watches second-monitor
-	Key  string
-	Spec map[string]any
-	Lbl  map[string]string
+	Op    string // put touch delete close-watches expire-watches second-monitor outage
+	Key   string
+	Spec  map[string]any
+	Lbl   map[string]string
+	Inner []c08step // outage: what happens to Key while the watches are down
 }
 
 func TestC08(t *testing.T) {
@@ -150,6 +151,19 @@ func TestC08(t *testing.T) {
 				steps = append(steps, c08step{Op: "touch", Key: k})
 			case r < 15:
 				steps = append(steps, c08step{Op: "delete", Key: k})
+				delete(last, k)
+			case r < 16:
+				// a watch outage that ends with 410 Gone: the informer learns what happened to one object only
+				// from its relist (deletions arrive as DeletedFinalStateUnknown tombstones)
+				st := c08step{Op: "outage", Key: k}
+				for j := 0; j < 1+rng.IntN(2); j++ {
+					if rng.IntN(2) == 0 {
+						st.Inner = append(st.Inner, c08step{Op: "delete", Key: k})
+					} else {
+						st.Inner = append(st.Inner, c08step{Op: "put", Key: k, Spec: specs(), Lbl: map[string]string{"l": fmt.Sprint(rng.IntN(2))}})
+					}
+				}
+				steps = append(steps, st)
 				delete(last, k)
 			case r < 17:
 				steps = append(steps, c08step{Op: "close-watches"})
@@ -291,6 +305,60 @@ func TestC08(t *testing.T) {
 						}
 					}
 					trace = append(trace, fmt.Sprintf("%d delete %s (existed: %v)", si, st.Key, ok))
+				case "outage":
+					parts := strings.SplitN(st.Key, "/", 2)
+					before, existed := vc.Current(st.Key)
+					vc.StallWatches(true)
+					for _, in := range st.Inner {
+						if in.Op == "delete" {
+							vc.Delete(parts[0], parts[1])
+						} else {
+							vc.Put(parts[0], parts[1], in.Lbl, map[string]any{"spec": in.Spec})
+						}
+						settle()
+					}
+					vc.StallWatches(false)
+					nw := vc.ExpireWatches()
+					for i := 0; i < 100 && vc.OpenWatches() < nw; i++ {
+						time.Sleep(time.Second)
+						synctest.Wait()
+					}
+					if vc.OpenWatches() < nw {
+						inconclusive = "watches were not re-established within 100 virtual seconds"
+					}
+					after, exists := vc.Current(st.Key)
+					what := "unchanged"
+					switch {
+					case existed && !exists:
+						what = "deleted"
+						delete(known, st.Key)
+						delete(known, st.Key+"#bin")
+						if listed["Deleted"] {
+							want = append(want, emitted{"Deleted", "", fmt.Sprint(before.Gen)})
+						}
+					case exists && (!existed || after.Gen != before.Gen):
+						obj := vlib.BuildCM(parts[0], parts[1], after).Object
+						p1, err1 := c08project(f.Expr, obj)
+						if err1 != nil {
+							inconclusive = fmt.Sprintf("reference jq failed on step %d: %v", si, err1)
+						}
+						typ := "Modified"
+						if !existed {
+							typ = "Added"
+						}
+						prev, had := known[st.Key]
+						changed := !had || prev != p1
+						known[st.Key] = p1
+						if f.Expr != "" {
+							pb, _ := c08projectJqBinary(f.Expr, obj)
+							known[st.Key+"#bin"] = pb
+						}
+						if changed && listed[typ] {
+							want = append(want, emitted{typ, "", fmt.Sprint(after.Gen)})
+						}
+						what = fmt.Sprintf("%s gen=%d projection %s (changed=%v)", typ, after.Gen, p1, changed)
+					}
+					trace = append(trace, fmt.Sprintf("%d outage: watches stalled, %d change(s) of %s (existed=%v gen=%d), then 410 Gone -> relist sees: %s", si, len(st.Inner), st.Key, existed, before.Gen, what))
 				case "close-watches", "expire-watches":
 					var nw int
 					if st.Op == "close-watches" {
